@@ -364,9 +364,217 @@ def run(ck: Checker):
 
     # ---- DEC ----
     dec_rule(ck, F)
+    find_rule(ck, F)
     # exactly the requested number of gates, inputs named by index
     ck.assume('the SAT solver is sound and complete; time-limit handling and the database shortcut content are not decided')
     ck.assume('the clause generator is uniform in gate index and truth-table position, so instances with <= 2 inputs and <= 2 gates exhibit every clause template (for larger sizes only the loop domains are relied on)')
+
+
+class HostDpll(Host):
+    """pysat.solvers.Solver stand-in: a small complete DPLL (unit propagation + branching).  The analyser's own solver: it
+    decides the clause sets the folded encoder produces, nothing of the repository."""
+
+    def __init__(self, name=None, bootstrap_with=None, **k):
+        self.clauses = [list(c) for c in (bootstrap_with or [])]
+        self.model = None
+
+    def append_formula(self, f):
+        self.clauses.extend(list(c) for c in getattr(f, 'clauses', f))
+
+    def add_clause(self, c):
+        self.clauses.append(list(c))
+
+    def delete(self):
+        return None
+
+    def __enter__(self):
+        return self
+
+    def __exit__(self, *a):
+        return False
+
+    def get_model(self):
+        return None if self.model is None else list(self.model)
+
+    def solve(self, *a, **k):
+        nv = max((abs(l) for c in self.clauses for l in c), default=0)
+        assign = {}
+
+        def propagate(assign):
+            changed = True
+            while changed:
+                changed = False
+                for c in self.clauses:
+                    un, sat = None, False
+                    n_un = 0
+                    for l in c:
+                        v = assign.get(abs(l))
+                        if v is None:
+                            n_un += 1
+                            un = l
+                        elif v == (l > 0):
+                            sat = True
+                            break
+                    if sat:
+                        continue
+                    if n_un == 0:
+                        return False
+                    if n_un == 1:
+                        assign[abs(un)] = un > 0
+                        changed = True
+            return True
+
+        def search(assign, budget=[200000]):
+            budget[0] -= 1
+            if budget[0] < 0:
+                raise AnalysisError('model solver budget exceeded')
+            if not propagate(assign):
+                return None
+            free = next((v for v in range(1, nv + 1) if v not in assign), None)
+            if free is None:
+                return assign
+            for val in (False, True):
+                a2 = dict(assign)
+                a2[free] = val
+                r = search(a2)
+                if r is not None:
+                    return r
+            return None
+        res = search(assign)
+        if res is None:
+            self.model = None
+            return False
+        self.model = [v if res[v] else -v for v in range(1, nv + 1)]
+        return True
+
+
+def find_rule(ck: Checker, F, R='C06.FIND'):
+    """find_circuit end to end on the smallest instances, with a model solver: every two-input function, one and two gates,
+    two bases -- a circuit is returned exactly when one of that size exists in the basis, and it computes the function;
+    constraints added after a first search are obeyed by the next one; finders do not influence each other."""
+    m = F.mod
+    it = F.interp
+    it.overrides['pysat.solvers.Solver'] = HostDpll
+    it.externals['pysat.solvers.Solver'] = HostDpll
+    it.externals['datetime.datetime.now'] = lambda *a: 0
+    it._globals_cache.clear()
+    opn = it.global_value(m, 'Operation')
+    basis = it.global_value(m, 'Basis')
+    codes = {k: sorted({opn.members[o.name].value if hasattr(o, 'name') else o.value for o in v.value}) for k, v in basis.members.items()}
+    T, Fv = True, False
+    fn = m.func('CircuitFinderSat.find_circuit')
+
+    def realisable(row, N, code_set, forbidden=()):
+        n = 2
+        for preds, tts, outs in enumerate_structures(n, N, 1):
+            if any(tts[g] not in code_set for g in range(n, n + N)):
+                continue
+            if any((a, g) in forbidden or (b, g) in forbidden for g, (a, b) in preds.items()):
+                continue
+            x = natural_values(n, N, preds, tts)
+            if [x[outs[0]][t] for t in range(4)] == list(row):
+                return True
+        return False
+
+    def table_of(c):
+        ins = list(c._inputs)
+        rows_ = []
+        for o in c._outputs:
+            r = []
+            for bits in itertools.product((False, True), repeat=len(ins)):
+                val = dict(zip(ins, bits))
+                for l, g in c._gates.items():
+                    if l not in val:
+                        val[l] = bool(semantics.value(g.gate_type.var, [val[x] for x in g.operands]))
+                r.append(val[o])
+            rows_.append(r)
+        return rows_
+
+    probs = []
+    n_runs = 0
+    rows = list(itertools.product((Fv, T), repeat=4))
+    for bname in ('XAIG', 'AIG'):
+        cs = set(codes[bname])
+        for N in (1, 2):
+            for row in rows:
+                n_runs += 1
+                inst = F.new([list(row)], N, bname)
+                want = realisable(row, N, cs)
+                try:
+                    c = F.call(inst, 'find_circuit')
+                except InterpRaise as e:
+                    if e.exc_name != 'NoSolutionError':
+                        probs.append(f'find_circuit raises {e.exc_name} for table {"".join(str(int(v)) for v in row)}, {N} gate(s), basis {bname}')
+                    elif want:
+                        probs.append(f'NoSolutionError although a circuit with {N} gate(s) in {bname} computes {"".join(str(int(v)) for v in row)}')
+                    continue
+                if not want:
+                    probs.append(f'a circuit is returned for {"".join(str(int(v)) for v in row)} with {N} gate(s) in {bname} although none exists')
+                elif table_of(c) != [list(row)]:
+                    probs.append(f'the circuit returned for {"".join(str(int(v)) for v in row)} ({N} gate(s), {bname}) computes {table_of(c)}')
+                else:
+                    used = {g.gate_type.var for l, g in c._gates.items() if g.gate_type.var != 'INPUT'}
+                    foreign = sorted(t for t in used if semantics.binary_code(t) not in cs)
+                    if foreign or len(c._gates) - len(c._inputs) != N:
+                        probs.append(f'the circuit returned for {"".join(str(int(v)) for v in row)} ({N} gate(s), {bname}) has gates {sorted(used)} / {len(c._gates) - len(c._inputs)} gates')
+            if len(probs) > 3:
+                break
+    ck.check(not probs, R, m, fn, f'find_circuit folded end to end with a model solver for every two-input function, 1 and 2 gates, XAIG and AIG ({n_runs} searches): a circuit exactly when one of that size exists in the basis, computing the function with gates of the basis',
+             '; '.join(probs[:2]), construct='find_circuit over all two-input functions')
+    # a constraint added after a first search is obeyed by the next search of the same finder
+    probs = []
+    for row, N, bname in (((Fv, T, T, Fv), 1, 'XAIG'), ((Fv, Fv, Fv, T), 1, 'AIG'), ((Fv, T, T, T), 2, 'AIG')):
+        inst = F.new([list(row)], N, bname)
+        try:
+            c1 = F.call(inst, 'find_circuit')
+        except InterpRaise as e:
+            probs.append(f'first search raises {e.exc_name}')
+            continue
+        # forbid the wire input 0 -> first gate (index 2): with one gate no circuit is left; with two, another structure must be found
+        try:
+            F.call(inst, 'forbid_wire', 0, 2)
+        except InterpRaise as e:
+            probs.append(f'forbid_wire(0, 2) raises {e.exc_name}')
+            continue
+        want = realisable(row, N, set(codes[bname]), forbidden={(0, 2)})
+        try:
+            c2 = F.call(inst, 'find_circuit')
+            reads = any('0' in g.operands and l == 's2' for l, g in c2._gates.items())
+            if reads:
+                probs.append(f'after forbid_wire(0, 2) the same finder returns a circuit whose gate s2 still reads input 0 ({"".join(str(int(v)) for v in row)}, {N} gate(s), {bname})')
+            elif not want:
+                probs.append(f'after forbid_wire(0, 2) a circuit is returned although none exists ({"".join(str(int(v)) for v in row)}, {N} gate(s), {bname})')
+            elif table_of(c2) != [list(row)]:
+                probs.append(f'after forbid_wire(0, 2) the returned circuit computes {table_of(c2)}')
+        except InterpRaise as e:
+            if e.exc_name != 'NoSolutionError' or want:
+                probs.append(f'after forbid_wire(0, 2) the search raises {e.exc_name} although {"a" if want else "no"} circuit exists ({"".join(str(int(v)) for v in row)}, {N} gate(s), {bname})')
+    ck.check(not probs, R, m, fn, 'a constraint added between two searches of one finder (forbid_wire) is obeyed by the second search', '; '.join(probs[:2]), construct='find_circuit, forbid_wire, find_circuit')
+    # finders do not influence each other: a normalised search first, then plain searches in the same bases
+    probs = []
+    for first, later in (('XAIG', (((T, T, T, Fv), 1, 'XAIG'), ((T, Fv, Fv, T), 1, 'XAIG'), ((Fv, Fv, Fv, T), 1, 'AIG'))),
+                         ('FULL', (((T, T, T, Fv), 1, 'AIG'), ((T, Fv, T, T), 1, 'FULL'), ((T, Fv, Fv, T), 1, 'XAIG'), ((Fv, T, T, Fv), 1, 'AIG')))):
+        try:
+            F.call(F.new([[Fv, T, T, Fv]], 1, first, need_normalized=True), 'get_cnf')
+        except InterpRaise:
+            pass
+        for row, N, bname in later:
+            inst = F.new([list(row)], N, bname)
+            want = realisable(row, N, set(codes[bname]))
+            rs = ''.join(str(int(v)) for v in row)
+            try:
+                c = F.call(inst, 'find_circuit')
+                used = {g.gate_type.var for l, g in c._gates.items() if g.gate_type.var != 'INPUT'}
+                foreign = sorted(t for t in used if semantics.binary_code(t) not in set(codes[bname]))
+                if not want:
+                    probs.append(f'after a normalised search in {first} was set up, the search for {rs} with one gate in {bname} returns a circuit (gates {sorted(used)}) although none exists')
+                elif table_of(c) != [list(row)] or foreign:
+                    probs.append(f'after a normalised search in {first} was set up, the search for {rs} in {bname} returns gates {sorted(used)} computing {table_of(c)}')
+            except InterpRaise as e:
+                if want or e.exc_name != 'NoSolutionError':
+                    probs.append(f'after a normalised search in {first} was set up, the search for {rs} with one gate in {bname} raises {e.exc_name}')
+    ck.check(not probs, R, m, fn, 'searches set up earlier in the process (a normalised one in XAIG, then one in FULL) do not change what later searches find', '; '.join(probs[:2]), construct='independent finders')
+    ck.assume('find_circuit is folded end to end for two-input functions and at most two gates only, with a model solver in place of pysat')
 
 
 def dec_rule(ck: Checker, F, R='C06.DEC'):
